@@ -75,6 +75,8 @@ def pure_ops(cases, seed, frame_every):
     for idx, (n, signs) in enumerate(cases):
         ops.append({"op": "proposal", "n": n, "frame": "std", "signs": signs})
         ops.append({"op": "vote", "n": n, "signs": signs})
+        if len(signs) <= 1 or (idx + seed) % 4 == 0:
+            ops.append({"op": "proposal", "n": n, "frame": "highqc", "signs": signs})
         if (idx + seed) % frame_every == 0:
             ops.append({"op": "proposal", "n": n, "frame": FRAMES[(idx // frame_every + seed) % len(FRAMES)], "signs": signs})
     return ops
